@@ -596,8 +596,18 @@ class Engine:
         _, path, fields, named = rv
         vals = [self.eval_operand(frame, o) for (_, o) in fields]
         p = strip_generics(path)
-        d = self.td.lookup(p)
         from .typedefs import StructDef, EnumDef
+        _segs = p.split('::')
+        _e = None
+        if len(_segs) >= 2:
+            try:
+                _e = self.td.lookup('::'.join(_segs[:-1]))
+            except Unsupported:
+                _e = None
+        if isinstance(_e, EnumDef) and _segs[-1] in _e.by_name:
+            d = None        # an enum variant (`DisplaceData::Row`), not the struct of the same name
+        else:
+            d = self.td.lookup(p)
         if isinstance(d, StructDef):
             if named and d.fields and not d.tuple_like:
                 names = [n for (n, _) in fields]
